@@ -39,7 +39,7 @@ if os.path.exists(thor):
             'and sub-agents, so wall times are upper bounds and a few goals that are decided in seconds on an idle machine came back `unknown`). '
             'A first run that was inconclusive (exit 2: a timeout, a capped exploration or an `unknown` goal -- never reported as success) led to '
             'the resizing stated in the BOUNDS of the check (§3) and to a second run (run 2). One first run exposed a false alarm of the check '
-            'itself (C07, §6). The last resizings of C01 (zero tests up to (4,1)) and C04 (no GF(8) bitwise/division, no lifted GF(9) products) were made after the runs shown for these two checks and their reruns did not fit into the session: for these two the thorough command has not been seen to exit 0 end to end, and the table says what stopped the last run; C07's corrected command was stopped by the 3000 s limit of the sweep script with 4 workers on the loaded machine (run 2 had needed 2183 s with 8 workers; the corrected m=2 transfer instances were rerun separately and held); the quick tiers are the ones exercised '
+            'itself (C07, §6). The last resizings of C01 (zero tests up to (4,1)) and C04 (no GF(8) bitwise/division, no lifted GF(9) products) were made after the runs shown for these two checks and their reruns did not fit into the session: for these two the thorough command has not been seen to exit 0 end to end, and the table says what stopped the last run; the corrected C07 command was stopped by the 3000 s limit of the sweep script with 4 workers on the loaded machine (run 2 had needed 2183 s with 8 workers; the corrected m=2 transfer instances were rerun separately and held); the quick tiers are the ones exercised '
             'by `vp check` on a fresh copy (eight requests; the last four came back without remarks, the last three of them cover all 38 checks).\n\n' + open(thor).read())
 open(os.path.join(ROOT, 'DESIGN.md'), 'w').write(out)
 print(len(out), 'bytes;', len(rows), 'seeded changes')
